@@ -11,7 +11,14 @@
 (* Panic, Timeout, Crash and anything else have no action.                      *)
 (* asts.json: type name -> reflection schema (complete ones only).              *)
 (* schema.json: the TL schema AST of lite_api.tl.                               *)
-EXTENDS Decode, Json
+(* Where the driver also recorded `ds` (the returned value as canonical text in   *)
+(* the shape of the specification's total decoder; thorough tier / opt-in) and   *)
+(* the input holds only ordinary cells, TlbDec!DecLax decodes the input under    *)
+(* the same schema: if it yields a value, the library's value must be that very  *)
+(* value (stronger than "a reading of a prefix"); if it refuses the input the     *)
+(* library was merely more tolerant (not a question of totality) and the prefix  *)
+(* relation above decides alone.  <<"JD", line, "dec" | "dec-refuses">> counts.   *)
+EXTENDS Decode, TlbDec, Json
 
 Trace  == ndJsonDeserialize("trace.ndjson")
 ASTs   == JsonDeserialize("asts.json")
@@ -31,11 +38,21 @@ ValueOK(e) ==
   ELSE LET a == EncPrefix(ty, e.v, inp)
            b == Reads(ty, e.v, inp) IN
        IF a = b THEN a ELSE PrintT(<<"NOTE", l, "spec-disagree">>) /\ FALSE
+RECURSIVE AllOrdinary(_)
+AllOrdinary(t) == t.x = 0 /\ \A k \in 1..Len(t.r) : AllOrdinary(t.r[k])
+DecSame(e) ==
+  IF ~("ds" \in DOMAIN e) THEN TRUE
+  ELSE LET inp == TreeOfJson(e.tree) IN
+       IF ~AllOrdinary(inp) THEN TRUE
+       ELSE LET t == DecLaxText(<<>>, ASTs[e.type], inp) IN
+            IF StrLen(t) >= 1 /\ SubStr(t, 1, 1) = "!" THEN PrintT(<<"JD", l, "dec-refuses">>)
+            ELSE t = e.ds /\ PrintT(<<"JD", l, "dec">>)
 JudgeDecode(e) ==
   LET size == TreeSize(e.cells, e.bits) IN
   First(<< <<"alloc", e.capped \/ e.alloc_kb <= AllocBudgetKb(size)>>,
            <<"time",  e.capped \/ e.ms <= TimeBudgetMs(size)>>,
-           <<"value", (e.res = "ok" /\ e.val) => ValueOK(e)>> >>)
+           <<"value", (e.res = "ok" /\ e.val) => ValueOK(e)>>,
+           <<"value-differs-from-Dec", (e.res = "ok" /\ e.val) => DecSame(e)>> >>)
 
 \* ------------------------------------------------------------------ TL
 DecOf(op, ty, b) == IF op = "EncBare" THEN TL!DecBare(Schema, ty, b) ELSE TL!Dec(Schema, ty, b)
